@@ -3,24 +3,24 @@
 // Re-run: /verif/bin/check C20 --replay /verif/replays/C20/inverse_law_3x3.rs
 // Failing check: assertion ""C20: resolve(a, relative(a, b)) == normalize(b)""
 #[test]
-fn kani_concrete_playback_inverse_law_3x3_13408357922211959747() {
-    let concrete_vals: Vec<Vec<u8>> = vec![
+fn kani_concrete_playback_inverse_law_3x3_15863077765107909216() {
+    let concrete_vals: std::vec::Vec<std::vec::Vec<u8>> = std::vec![
         // 3ul
-        vec![3, 0, 0, 0, 0, 0, 0, 0],
+        std::vec![3, 0, 0, 0, 0, 0, 0, 0],
         // 1
-        vec![1],
+        std::vec![1],
+        // 1
+        std::vec![1],
         // 0
-        vec![0],
-        // 1
-        vec![1],
+        std::vec![0],
         // 3ul
-        vec![3, 0, 0, 0, 0, 0, 0, 0],
+        std::vec![3, 0, 0, 0, 0, 0, 0, 0],
         // 0
-        vec![0],
-        // 0
-        vec![0],
+        std::vec![0],
         // 1
-        vec![1],
+        std::vec![1],
+        // 0
+        std::vec![0],
     ];
     kani::concrete_playback_run(concrete_vals, inverse_law_3x3);
 }
